@@ -136,6 +136,11 @@ pub fn run(progs: &str, out: &str) -> std::io::Result<()> {
         t.ev(json!({"ev":"reset","run":pi,"name":prog["name"]}));
         let mut rd = match catch(|| E57Reader::new(Dev::from_bytes(img.clone()))) {
             Ok(Ok(r)) => r,
+            Ok(Err(_)) if prog["damaged"] == true => {
+                // a deliberately damaged image may be refused as a whole (damage in the header or XML pages)
+                t.ev(json!({"ev":"simple_refused","name":prog["name"]}));
+                continue;
+            }
             _ => {
                 t.ev(json!({"ev":"simple_nofile","name":prog["name"]}));
                 continue;
